@@ -274,8 +274,8 @@ var gRules = []gSrc{
 	//   [, ROW DELETION POLICY (OLDER_THAN(col, INTERVAL n DAY))] [, OPTIONS (...)]
 	rule("create_table", "CREATE TABLE [ IF NOT EXISTS ] table_name ( {1 table_element / , } ) [ PRIMARY KEY ( {0 key_part / , } ) ] [ , interleave ] [ , row_deletion_policy ] [ , options ]"),
 	rule("table_element", "column: column_def", "constraint: table_constraint", "synonym: SYNONYM ( ident )"),
-	rule("column_def", "ident column_type [ NOT NULL ] [ column_default ] [ column_flag ] [ options ]"),
-	rule("column_flag", "PRIMARY KEY", "HIDDEN"),
+	// (round 3, seed C06h) HIDDEN and PRIMARY KEY are independent attributes (the ColumnDef template of ast/ast.go prints both, in this order)
+	rule("column_def", "ident column_type [ NOT NULL ] [ column_default ] [ HIDDEN ] [ PRIMARY KEY ] [ options ]"),
 	rule("column_default",
 		"default: DEFAULT ( expr )",
 		"generated: AS ( expr ) [ STORED ]",
